@@ -146,8 +146,8 @@ CFG = {
                  "every body and every inner iterator; asyncRunner is proved to be that machine driven by the promise settlements; "
                  "completed is absorbing, executing rejects re-entry; vm.suspend/resume copy the generator's stack segment and "
                  "try/iter/ref slices so that after resuming at ANY later VM state every saved offset is shifted by exactly the "
-                 "base difference and nothing below the base changes; for the core of the body language an explicit-stack machine "
-                 "(suspended body = locals + frames) is proved to resume, for every history, exactly as the direct evaluation with "
+                 "base difference and nothing below the base changes; for the body language (all of it except hand-written iterators as for-of / yield* operands) an "
+                 "explicit-stack machine (suspended body = locals + frames; inner generators = stack segments cut off at boundaries) is proved to resume, for every history, exactly as the direct evaluation with "
                  "each yield answered by the history's values. The model is tied to /repo on every run by 2000 (quick) / "
                  "150000 (thorough) generated (body, history) pairs compared with the Gallina semantics evaluated by vm_compute."),
         "note": ("trusted: Coq kernel + vm_compute; the hand transcription of func.go/vm.go; the direct semantics of the body "
